@@ -7,6 +7,8 @@ package shmipc
 // Engine E2: real SessionManager against in-process Listeners (echo servers) on one unix path.
 
 import (
+	"io"
+	"sort"
 	"encoding/binary"
 	"fmt"
 	"os"
@@ -20,10 +22,30 @@ import (
 	"pgregory.net/rapid"
 )
 
+// gateLog is a LogOutput which, once armed, holds up every handshake of the sessions that log to it for d: it blocks at the line
+// that opens the handshake (the configuration's LogOutput is the only delay hook the library offers; needs log level info)
+type gateLog struct {
+	armed int32
+	held  int32
+	d     time.Duration
+}
+
+func (g *gateLog) Write(b []byte) (int, error) {
+	if atomic.LoadInt32(&g.armed) == 1 && strings.Contains(string(b), "starting initializes") {
+		atomic.AddInt32(&g.held, 1)
+		time.Sleep(g.d)
+	}
+	return len(b), nil
+}
+
 func newEchoServerAt(path string, unlinkOnClose bool) *echoServer {
+	return newEchoServerAtLog(path, unlinkOnClose, nil)
+}
+
+func newEchoServerAtLog(path string, unlinkOnClose bool, out io.Writer) *echoServer {
 	es := &echoServer{streams: map[string]*Stream{}, path: path}
 	conf := NewDefaultListenerConfig(path, "unix")
-	conf.Config.LogOutput = nil
+	conf.Config.LogOutput = out
 	conf.Config.InitializeTimeout = 20 * time.Second
 	ln, err := NewListener(es, conf)
 	if err != nil {
@@ -117,7 +139,10 @@ type hrCase struct {
 func genHrCase(t *rapid.T) hrCase {
 	c := hrCase{Sessions: rapid.IntRange(1, 4).Draw(t, "sessions"), MemFd: rapid.Bool().Draw(t, "memfd"),
 		Epoch: rapid.Uint64Range(1, 1<<40).Draw(t, "epoch"), Workers: rapid.IntRange(1, 2).Draw(t, "workers")}
-	c.Fault = rapid.SampledFrom([]string{"none", "none", "none", "no-new-server", "second-call", "stale-event", "kill-one-session"}).Draw(t, "fault")
+	c.Fault = rapid.SampledFrom([]string{"none", "none", "none", "no-new-server", "second-call", "stale-event", "kill-one-session", "partial-announcement"}).Draw(t, "fault")
+	if c.Fault == "partial-announcement" && c.Sessions < 2 {
+		c.Sessions = 2
+	}
 	c.DeltaMs = rapid.SampledFrom([]int{-300, -50, -5, -1}).Draw(t, "delta")
 	if c.Fault == "no-new-server" {
 		c.DeltaMs = 100000
@@ -136,7 +161,11 @@ func hrRun(c hrCase, r *runCtx) {
 			old.ln.Close()
 		}
 	}()
-	sm, err := NewSessionManager(smConfigFor(old, c.Sessions, 8, c.MemFd))
+	smc := smConfigFor(old, c.Sessions, 8, c.MemFd)
+	if c.Fault == "partial-announcement" {
+		smc.Config.rebuildInterval = 300 * time.Millisecond // (default: 60 s) the pool left behind is re-established by the healing of C17
+	}
+	sm, err := NewSessionManager(smc)
 	if err != nil {
 		harnessFail("NewSessionManager: %v", err)
 	}
@@ -179,7 +208,33 @@ func hrRun(c hrCase, r *runCtx) {
 	}
 	tHR := time.Now()
 	staleTookOver := false
-	if err := old.ln.HotRestart(c.Epoch); err != nil {
+	if c.Fault == "partial-announcement" {
+		// the restart event of one session is lost (delayed for ever): what Listener.HotRestart does, by hand, without sending
+		// the event to the session with the highest descriptor. The listener waits for an acknowledgement that cannot come and
+		// leaves through its time-out, the manager moves the pools it heard about and leaves through its own.
+		ln := old.ln
+		ln.mu.Lock()
+		ln.state = hotRestartState
+		ln.epoch = c.Epoch
+		ln.sessions.sessionMu.Lock()
+		var ss []*Session
+		for sess := range ln.sessions.data {
+			ss = append(ss, sess)
+		}
+		sort.Slice(ss, func(i, j int) bool { return ss[i].connFd < ss[j].connFd })
+		for i, sess := range ss {
+			if i < len(ss)-1 {
+				if err := sess.hotRestart(c.Epoch, typeHotRestart); err != nil {
+					harnessFail("hotRestart event: %v", err)
+				}
+			}
+			sess.state = hotRestartState
+			ln.hotRestartAckCount++
+		}
+		ln.sessions.sessionMu.Unlock()
+		ln.mu.Unlock()
+		go ln.checkHotRestart()
+	} else if err := old.ln.HotRestart(c.Epoch); err != nil {
 		if c.Fault == "kill-one-session" {
 			r.Label("hotrestart-refused:" + err.Error())
 		} else {
@@ -346,6 +401,34 @@ func hrRun(c hrCase, r *runCtx) {
 		newer.ln.Close()
 		newer = nil
 	}
+	if c.Fault == "partial-announcement" && newer != nil {
+		// the pool whose event was lost stayed on the old server; now that it is gone the pool must be re-established on the new one
+		ok := waitUntil(12*time.Second, func() bool {
+			sm.RLock()
+			for _, p := range sm.pools {
+				if p.Session().IsClosed() {
+					sm.RUnlock()
+					return false
+				}
+			}
+			sm.RUnlock()
+			open, _ := newer.sessionCount()
+			return open == c.Sessions
+		})
+		if !ok {
+			open, _ := newer.sessionCount()
+			var closed []int
+			sm.RLock()
+			for i, p := range sm.pools {
+				if p.Session().IsClosed() {
+					closed = append(closed, i)
+				}
+			}
+			sm.RUnlock()
+			r.Violf("the restart event of one session was lost; 12 s after the old server let go the new server holds %d of %d sessions, pools with a closed session: %v (the pool that stayed behind was never re-established)", open, c.Sessions, closed)
+			return
+		}
+	}
 	time.Sleep(150 * time.Millisecond)
 	tAfter := time.Now()
 	time.Sleep(100 * time.Millisecond)
@@ -429,11 +512,15 @@ type healCase struct {
 	RebuildMs  int        `json:"rebuild_ms"`
 	Steps      []healStep `json:"steps"`
 	CloseEarly bool       `json:"close_early"` // SessionManager.Close while a rebuild is pending
+	// SlowHsMs > 0: once the manager is up, the server holds every further handshake up for this long; with CloseEarly the
+	// manager is then closed while the replacement session's handshake is in flight
+	SlowHsMs int `json:"slow_hs_ms,omitempty"`
 }
 
 func genHealCase(t *rapid.T) healCase {
 	c := healCase{Pools: rapid.IntRange(1, 3).Draw(t, "pools"), MemFd: rapid.Bool().Draw(t, "memfd"),
-		RebuildMs: rapid.SampledFrom([]int{20, 50, 120}).Draw(t, "rebuild"), CloseEarly: rapid.IntRange(0, 3).Draw(t, "closeearly") == 0}
+		RebuildMs: rapid.SampledFrom([]int{20, 50, 120}).Draw(t, "rebuild"), CloseEarly: rapid.IntRange(0, 3).Draw(t, "closeearly") == 0,
+		SlowHsMs: rapid.SampledFrom([]int{0, 0, 300}).Draw(t, "slow_hs")}
 	n := rapid.IntRange(1, 3).Draw(t, "nsteps")
 	for i := 0; i < n; i++ {
 		k := rapid.IntRange(0, 4).Draw(t, "kind")
@@ -458,7 +545,21 @@ func goroutinesAt(fn string) int {
 func healRun(c healCase, r *runCtx) {
 	path := "/tmp/" + uniqueName("heal") + ".sock"
 	defer os.Remove(path)
-	es := newEchoServerAt(path, true)
+	var gate *gateLog
+	mkServer := func() *echoServer {
+		if gate != nil {
+			return newEchoServerAtLog(path, true, gate)
+		}
+		return newEchoServerAt(path, true)
+	}
+	if c.SlowHsMs > 0 {
+		gate = &gateLog{d: time.Duration(c.SlowHsMs) * time.Millisecond}
+		oldLevel := level
+		level = levelInfo
+		defer func() { level = oldLevel }()
+		r.Label("slow-server-handshakes")
+	}
+	es := mkServer()
 	defer func() { es.ln.Close() }()
 	accepted := int64(0)
 	// count every session the server side ever sets up
@@ -514,6 +615,9 @@ func healRun(c healCase, r *runCtx) {
 	if msg := allPoolsOK(); msg != "" {
 		harnessFail("fresh manager: %s", msg)
 	}
+	if gate != nil {
+		atomic.StoreInt32(&gate.armed, 1)
+	}
 	losses := 0
 	serverGen := 1
 	hrEpoch := uint64(40)
@@ -556,7 +660,7 @@ func healRun(c healCase, r *runCtx) {
 			waitUntil(time.Second, cs.IsClosed)
 			losses++
 			es.ln.SetUnlinkOnClose(false)
-			es2 := newEchoServerAt(path, true)
+			es2 := mkServer()
 			time.Sleep(2 * time.Millisecond)
 			hrEpoch++
 			if err := es.ln.HotRestart(hrEpoch); err != nil {
@@ -587,7 +691,7 @@ func healRun(c healCase, r *runCtx) {
 				return
 			}
 			time.Sleep(time.Duration(st.DownMs) * time.Millisecond)
-			es2 := newEchoServerAt(path, true)
+			es2 := mkServer()
 			*es = *es2
 			serverGen++
 			r.Label("listener-restarted")
@@ -606,6 +710,13 @@ func healRun(c healCase, r *runCtx) {
 		}
 	}
 	if c.CloseEarly {
+		if gate != nil && losses > 0 {
+			// wait until the replacement session's handshake is being held up by the server: Close lands in the middle of it
+			h0 := atomic.LoadInt32(&gate.held)
+			if waitUntil(time.Duration(c.RebuildMs)*time.Millisecond+1500*time.Millisecond, func() bool { return atomic.LoadInt32(&gate.held) > h0 || allPoolsOK() == "" }) {
+				r.Label("closed-during-rebuild-handshake")
+			}
+		}
 		// Close while (possibly) a rebuild timer is pending: it must return and stop everything
 		done := make(chan struct{})
 		go func() { sm.Close(); close(done) }()
@@ -630,6 +741,33 @@ func healRun(c healCase, r *runCtx) {
 		}
 		sm.Close()
 		smClosed = true
+	}
+	// "closing the manager stops all of this": no session of the manager survives it, whatever was in progress when Close was called
+	if !waitUntil(3*time.Second+time.Duration(c.SlowHsMs)*time.Millisecond, func() bool {
+		open, _ := es.sessionCount()
+		if open != 0 {
+			return false
+		}
+		for _, p := range sm.pools {
+			if s := p.Session(); s != nil && !s.IsClosed() {
+				return false
+			}
+		}
+		return true
+	}) {
+		open, _ := es.sessionCount()
+		var alive []int
+		for i, p := range sm.pools {
+			if s := p.Session(); s != nil && !s.IsClosed() {
+				alive = append(alive, i)
+			}
+		}
+		r.Violf("SessionManager.Close returned, but the server still holds %d open session(s) of it and pools %v have a live session (a session established while Close was running was left alive)", open, alive)
+		return
+	}
+	if _, err := sm.GetStream(); err == nil {
+		r.Violf("GetStream on a closed SessionManager returned a stream")
+		return
 	}
 	if !waitUntil(2*time.Second, func() bool { return goroutinesAt("(*SessionManager).background.func1") <= watchersBefore }) {
 		r.Violf("SessionManager.Close returned but %d watcher goroutine(s) are still running", goroutinesAt("(*SessionManager).background.func1")-watchersBefore)
